@@ -504,6 +504,8 @@ class WireEval:
         return Unknown("%s %s %s" % (l, type(op).__name__, r))
 
     def cmp(self, op, l, r, node):
+        if getattr(self, "on_cmp", None) is not None:
+            self.on_cmp(op, l, r, node)
         if isinstance(op, (ast.In, ast.NotIn)):
             if isinstance(r, Unknown):
                 raise AnalysisError("wireval: membership in %r" % (r,))
